@@ -1,5 +1,11 @@
 open Datatypes
 
+(** val hd_error : 'a1 list -> 'a1 option **)
+
+let hd_error = function
+| [] -> None
+| x :: _ -> Some x
+
 (** val nth : nat -> 'a1 list -> 'a1 -> 'a1 **)
 
 let rec nth n l default =
